@@ -991,6 +991,38 @@ def check_readers_not_memoised(ctx, rule: str, modules) -> None:
         raise AnalysisError(f"{rule}: no reading function found in {list(modules)}")
 
 
+def check_integer_setters(ctx) -> None:
+    """libsbml's integer attributes (fbc:charge) take a Python int: handed a float (2.0 - the model classes accept it)
+    the binding stores 0 without an error, and the document says the metabolite is neutral. Rule: the argument of every
+    integer setter of the writer is an `int(..)` conversion, or a name that is assigned one on some path before the call
+    (the usual form: convert when the value is integral)."""
+    prog = ctx.prog
+    fn = prog.func(MOD, "_model_to_sbml")
+    setters = ("setCharge",)
+    n = 0
+    for c in walk_local(fn.node):
+        if not (isinstance(c, ast.Call) and isinstance(c.func, ast.Attribute) and c.func.attr in setters and c.args):
+            continue
+        n += 1
+        arg = c.args[0]
+
+        def converts(e) -> bool:
+            return isinstance(e, ast.Call) and isinstance(e.func, ast.Name) and e.func.id in ("int", "round") and len(e.args) == 1 or \
+                isinstance(e, ast.IfExp) and (converts(e.body) or converts(e.orelse))
+
+        ok = converts(arg)
+        if not ok and isinstance(arg, ast.Name):
+            for a in walk_local(fn.node):
+                if isinstance(a, ast.Assign) and any(isinstance(t, ast.Name) and t.id == arg.id for t in a.targets) and converts(a.value) and a.lineno < c.lineno:
+                    ok = True
+        if ok:
+            ctx.ok("C10.fields", fn, c, f"`{c.func.attr}` receives an integer conversion")
+        else:
+            ctx.bad("C10.fields", fn, c, f"`{norm(c, 60)}`: the value goes to libsbml's integer setter as it is - a charge held as a float (2.0, accepted by the model classes, what a data frame or JSON hands out) is stored as 0 without an error, and the metabolite is read back neutral")
+    if not n:
+        ctx.note("C10.fields: the writer calls no integer setter that is read here")
+
+
 def check_legacy_rule_source(ctx) -> None:
     """A document that uses the fbc package states its gene rules as geneProductAssociations: a reaction without one has
     an empty rule. The legacy fallback (the rule text kept in the notes under GENE ASSOCIATION / GENE_ASSOCIATION - notes
@@ -1463,6 +1495,7 @@ def run(ctx) -> None:
     ctx.rule("C10.notes", "T7: text written between tags passes an XML escape, the reader applies the matching unescape", floor=1)
     ctx.guard(check_notes_escaping, ctx)
     ctx.guard(check_compartment_source, ctx)
+    ctx.guard(check_integer_setters, ctx)
     ctx.rule("C10.reread", "T4: the functions that read a document from the file system / the parser are not memoised on the file name", floor=2)
     ctx.guard(check_readers_not_memoised, ctx, "C10.reread", ("cobra.io.sbml",))
     ctx.rule("C10.legacy", "T2 guard dominance: the legacy rule text of the notes is consulted only in the absence of the fbc plugin", floor=2)
